@@ -1,5 +1,6 @@
 import PhyModel.Proofs.ConcDensity
 import PhyModel.Proofs.ConcModel
+import PhyModel.Proofs.ConcGibbs
 /-! # C13 — the concentration update is an exact Gibbs step for the CRP concentration
 
 Property theorems only; helper lemmas live in `Proofs/ConcDensity.lean` (real analysis, Mathlib's
@@ -243,6 +244,53 @@ theorem conc_gibbs_partial (a b α L : ℚ) (K n : ℕ) (bern : Bool) (ha : 0 < 
   · rw [hsh]; cases bern <;> simp
   · rw [hsc, hR]; push_cast; ring
   · exact eta_marginal a b α K n hα' hn
+
+/-- **C13: the update is an exact Gibbs step.**  For `a, b > 0`, `1 ≤ K`, `1 ≤ n`: if the
+concentration `x` is distributed with density `target a b K n` w.r.t. Lebesgue measure on `(0, ∞)`,
+`η` is drawn from Beta(`x+1`, `n`) and then `x'` from the mixture
+`π Gamma(a+K, b - log η) + (1-π) Gamma(a+K-1, b - log η)` with the Escobar–West weight, then `x'` is
+again distributed with density `target a b K n`.  Stated for every measurable test function
+`f : ℝ → [0, ∞]` (`f` = indicator of a measurable set gives the statement about measures; `target`
+is not normalised, the identity is homogeneous in it). -/
+theorem conc_gibbs (a b : ℝ) (K n : ℕ) (ha : 0 < a) (hb : 0 < b) (hK : 1 ≤ K) (hn : 1 ≤ n)
+    (f : ℝ → ENNReal) (hf : Measurable f) :
+    ∫⁻ x in Ioi (0 : ℝ), ENNReal.ofReal (target a b K n x) *
+        ∫⁻ η in Ioo (0 : ℝ) 1, betaPDF (x + 1) n η *
+          ∫⁻ x' in Ioi (0 : ℝ),
+            ENNReal.ofReal (weight a b K n η * gammaPDFReal (a + K) (b - log η) x'
+              + (1 - weight a b K n η) * gammaPDFReal (a + K - 1) (b - log η) x') * f x'
+      = ∫⁻ x in Ioi (0 : ℝ), ENNReal.ofReal (target a b K n x) * f x := by
+  have hK' : (1 : ℝ) ≤ K := by exact_mod_cast hK
+  have hn' : (0 : ℝ) < n := by exact_mod_cast hn
+  have hG : 0 < Gamma n := Gamma_pos_of_pos hn'
+  have key := GibbsTwoStage.gibbs_two_stage_real (volume.restrict (Ioi (0 : ℝ)))
+    (volume.restrict (Ioo (0 : ℝ) 1)) (joint a b K n) (measurable_jointR a b K n)
+    (fun x => Gamma n * target a b K n x) (fun x η => betaPDFReal (x + 1) n η)
+    (mixR a b K n) (fun x => measurable_betaPDFReal _ _) (measurable_mixR a b K n)
+    ?_ ?_ ?_ ?_ f hf
+  · simp_rw [ENNReal.ofReal_mul hG.le, mul_assoc] at key
+    rw [lintegral_const_mul' _ _ ENNReal.ofReal_ne_top,
+      lintegral_const_mul' _ _ ENNReal.ofReal_ne_top] at key
+    exact (ENNReal.mul_right_inj (by simpa using hG) ENNReal.ofReal_ne_top).mp key
+  · -- the joint is nonnegative on (0,∞) × (0,1)
+    refine ae_restrict_of_forall_mem measurableSet_Ioi fun x hx => ?_
+    exact ae_restrict_of_forall_mem measurableSet_Ioo fun η hη =>
+      jointR_nonneg ha hb hn' hx hη.1 hη.2
+  · -- in η: a multiple of the Beta(x+1, n) density (`eta_conditional`)
+    refine ae_restrict_of_forall_mem measurableSet_Ioi fun x hx => ⟨?_, ?_, ?_⟩
+    · exact ae_restrict_of_forall_mem measurableSet_Ioo fun η hη =>
+        (betaPDFReal_pos hη.1 hη.2 (by linarith [mem_Ioi.mp hx]) hn').le
+    · exact lintegral_betaPDFReal_Ioo (by linarith [mem_Ioi.mp hx]) hn'
+    · obtain ⟨Z, hZ⟩ := eta_conditional a b x K n hx hn
+      exact ⟨Z, ae_restrict_of_forall_mem measurableSet_Ioo fun η hη => hZ η hη.1 hη.2⟩
+  · -- in x: a multiple of the mixture density (`alpha_conditional`)
+    refine ae_restrict_of_forall_mem measurableSet_Ioo fun η hη => ⟨?_, ?_, ?_⟩
+    · exact ae_of_all _ (mixR_nonneg ha hb hK' hn' hη.1 hη.2)
+    · exact lintegral_mixR_Ioi ha hb hK' hn' hη.1 hη.2
+    · obtain ⟨D, hD⟩ := alpha_conditional a b η K n ha hb hK hn hη.1 hη.2
+      exact ⟨D, ae_restrict_of_forall_mem measurableSet_Ioi fun x hx => hD x hx⟩
+  · -- the η-marginal is Γ(n) · target (`eta_marginal`)
+    exact ae_restrict_of_forall_mem measurableSet_Ioi fun x hx => eta_marginal a b x K n hx hn
 
 /-! ## Non-vacuity: the hypotheses are satisfiable on concrete non-trivial inputs -/
 
